@@ -986,6 +986,158 @@ fn unseekable_builder_case(c: &mut Case, fmt: usize, n: usize) {
     c.nontrivial();
 }
 
+// ---------------------------------------------------------------- error items
+
+/// One item of a pass over raw bytes: a line, or the kind of the error lent in its place.
+type RawItem = Result<String, String>;
+
+/// What a line lender lends over `raw`: the bytes up to each LF are validated as a
+/// whole; an invalid UTF-8 line is lent as an error (and skipped), a valid one
+/// without its LF / CRLF.
+fn model_raw_items(raw: &[u8]) -> Vec<RawItem> {
+    let mut v = Vec::new();
+    let mut rest = raw;
+    while !rest.is_empty() {
+        let end = rest.iter().position(|&b| b == b'\n').map(|p| p + 1).unwrap_or(rest.len());
+        let (line, tail) = rest.split_at(end);
+        rest = tail;
+        match std::str::from_utf8(line) {
+            Ok(s) => {
+                let s = s.strip_suffix('\n').map(|s| s.strip_suffix('\r').unwrap_or(s)).unwrap_or(s);
+                v.push(Ok(s.to_string()));
+            }
+            Err(_) => v.push(Err("InvalidData".to_string())),
+        }
+    }
+    v
+}
+
+fn raw_inputs() -> Vec<(&'static str, Vec<u8>)> {
+    let mut v: Vec<(&'static str, Vec<u8>)> = vec![
+        ("invalid-middle-line", b"alpha\nbr\xffvo\ncharlie\ndelta".to_vec()),
+        ("invalid-first-line", b"\xff\xfe\nok\nlast\n".to_vec()),
+        ("invalid-last-line-no-newline", b"a\nb\n\xc3".to_vec()),
+        ("only-invalid", b"\x80".to_vec()),
+        ("invalid-crlf-lines", b"x\r\n\xf0\x9f\r\ny\r\n".to_vec()),
+        ("several-invalid-lines", b"\xff\n\xff\nmid\n\xff\nz".to_vec()),
+        ("truncated-multibyte-then-valid", b"caf\xc3\n\xa9\nplain\n".to_vec()),
+    ];
+    let mut long = Vec::new();
+    for i in 0..300 {
+        if i % 7 == 3 {
+            long.extend_from_slice(format!("bad{}\u{0}", i).as_bytes());
+            long.push(0xf8);
+            long.push(b'\n');
+        } else {
+            long.extend_from_slice(format!("line number {}\n", i).as_bytes());
+        }
+    }
+    v.push(("long-every-7th-invalid", long));
+    let mut edge = vec![b'a'; 8191];
+    edge.extend_from_slice(b"\xff\nafter the boundary\n");
+    edge.extend_from_slice(&vec![b'b'; 8192 - 20]);
+    edge.extend_from_slice(b"\xe2\x82\nend");
+    v.push(("invalid-at-buffer-boundary", edge));
+    v
+}
+
+/// Histories over a lender whose passes contain error items: every pass must lend
+/// the item sequence of the first pass (errors included, compared by kind).
+fn run_raw_hists<L>(c: &mut Case, mk: &dyn Fn() -> Result<L, String>, model: &[RawItem], hists: &[Vec<usize>], what: &dyn Fn() -> String)
+where
+    L: RewindableIoLender<str, Error = std::io::Error>,
+{
+    let cap = model.len() + 1000;
+    let take_items = |l: &mut L, polls: usize| -> (Vec<RawItem>, bool) {
+        let mut v = Vec::new();
+        let mut ended = false;
+        while v.len() < polls {
+            let item: Option<Result<&str, std::io::Error>> = l.next();
+            match item {
+                None => {
+                    ended = true;
+                    break;
+                }
+                Some(Ok(x)) => v.push(Ok(x.to_owned())),
+                Some(Err(e)) => v.push(Err(format!("{:?}", e.kind()))),
+            }
+        }
+        (v, ended)
+    };
+    let first: Vec<RawItem> = match catch(|| mk().map(|mut l| take_items(&mut l, cap).0)) {
+        Ok(Ok(v)) => v,
+        Ok(Err(e)) => {
+            c.fail("first_pass", "error", "cannot create the lender", &format!("{}; {}", e, what()));
+            return;
+        }
+        Err(m) => {
+            c.fail("first_pass", "panic", &m, &format!("first pass panicked; {}", what()));
+            return;
+        }
+    };
+    c.check("first_pass", first == model, || format!("a fresh lender lends {} items {}, the input has {} items {}; {}", first.len(), trunc(&format!("{:?}", first), 400), model.len(), trunc(&format!("{:?}", model), 400), what()));
+    for hist in hists {
+        let r = catch(|| -> Result<(), (String, String)> {
+            let mut l = mk().map_err(|e| ("error".to_string(), e))?;
+            for (p, &polls) in hist.iter().enumerate() {
+                let (got, _) = take_items(&mut l, polls);
+                if got[..] != first[..got.len().min(first.len())] || got.len() > first.len() {
+                    return Err(("mismatch".into(), format!("pass {} (after {} rewinds) lends {} where the first pass lends {}", p + 1, p, trunc(&format!("{:?}", got), 400), trunc(&format!("{:?}", &first[..got.len().min(first.len())]), 400))));
+                }
+                l = l.rewind().map_err(|e| ("error".to_string(), format!("rewind() #{} returned Err({})", p + 1, e)))?;
+            }
+            let (got, ended) = take_items(&mut l, cap);
+            if got != first || !ended {
+                let at = got.iter().zip(first.iter()).position(|(a, b)| a != b).unwrap_or(got.len().min(first.len()));
+                return Err(("mismatch".into(), format!("the pass after {} rewinds lends {} items, the first pass {}; first difference at item #{}: got {} first pass {}", hist.len(), got.len(), first.len(), at, trunc(&format!("{:?}", got.get(at)), 200), trunc(&format!("{:?}", first.get(at)), 200))));
+            }
+            Ok(())
+        });
+        c.tick(first.len() as u64 + 1);
+        match r {
+            Ok(Ok(())) => {}
+            Ok(Err((kind, d))) => c.fail("histories_with_error_items", &kind, if kind == "mismatch" { "a pass after a rewind differs from the first pass" } else { "error" }, &format!("{}; history: poll {:?} then rewind each time, then read to the end; {}", d, hist, what())),
+            Err(m) => c.fail("histories_with_error_items", "panic", &m, &format!("panicked; history {:?}; {}", hist, what())),
+        }
+    }
+}
+
+fn raw_lender_case(c: &mut Case, fmt: usize, src: Src, raw: &[u8]) {
+    let model = model_raw_items(raw);
+    let n = model.len();
+    let bytes: Vec<u8> = match fmt {
+        0 => raw.to_vec(),
+        1 => zstd_bytes(raw, Comp::Single),
+        _ => gzip_bytes(raw, Comp::Single),
+    };
+    let tmp = if matches!(src, Src::Path | Src::File) {
+        let mut f = tempfile::NamedTempFile::new().expect("temp file");
+        f.write_all(&bytes).expect("write temp file");
+        f.flush().expect("flush temp file");
+        Some(f)
+    } else {
+        None
+    };
+    let path = tmp.as_ref().map(|f| f.path().to_path_buf());
+    let hists = histories(n, false);
+    let what = || format!("{} over {} raw bytes {:?} ({} items, {} of them errors)", ["LineLender", "ZstdLineLender", "GzipLineLender"][fmt], raw.len(), trunc(&String::from_utf8_lossy(raw), 120), n, model.iter().filter(|x| x.is_err()).count());
+    let es = |e: std::io::Error| e.to_string();
+    match (fmt, src) {
+        (0, Src::Cursor) => run_raw_hists(c, &|| Ok(LineLender::new(Cursor::new(bytes.clone()))), &model, &hists, &what),
+        (0, Src::TinyBuf) => run_raw_hists(c, &|| Ok(LineLender::new(BufReader::with_capacity(3, Cursor::new(bytes.clone())))), &model, &hists, &what),
+        (0, Src::Path) => run_raw_hists(c, &|| LineLender::from_path(path.as_ref().unwrap()).map_err(es), &model, &hists, &what),
+        (0, Src::File) => run_raw_hists(c, &|| File::open(path.as_ref().unwrap()).map(LineLender::from_file).map_err(es), &model, &hists, &what),
+        (1, Src::Path) => run_raw_hists(c, &|| ZstdLineLender::from_path(path.as_ref().unwrap()).map_err(es), &model, &hists, &what),
+        (1, _) => run_raw_hists(c, &|| ZstdLineLender::new(Cursor::new(bytes.clone())).map_err(es), &model, &hists, &what),
+        (_, Src::Path) => run_raw_hists(c, &|| GzipLineLender::from_path(path.as_ref().unwrap()).map_err(es), &model, &hists, &what),
+        (_, _) => run_raw_hists(c, &|| GzipLineLender::new(Cursor::new(bytes.clone())).map_err(es), &model, &hists, &what),
+    }
+    if n >= 2 {
+        c.nontrivial();
+    }
+    c.describe(|| what());
+}
+
 fn main() {
     let mut ctx = Ctx::from_args("C20");
     ctx.set_hang_limit(180);
@@ -1028,6 +1180,23 @@ fn main() {
             for n in [10usize, 100, 1000] {
                 let kind = ["VBuilder+LineLender/unseekable", "VBuilder+ZstdLineLender/unseekable", "VBuilder+GzipLineLender/unseekable"][fmt];
                 ctx.case(kind, &format!("forced-retry/n{}", n), "build_unseekable", |c| unseekable_builder_case(c, fmt, n));
+            }
+        }
+    }
+
+    // 0b. passes that contain error items (invalid UTF-8 lines): the items of every
+    //     pass, errors included, are those of the first pass
+    for (iname, raw) in raw_inputs() {
+        for fmt in 0..3usize {
+            if small && fmt != 0 {
+                continue;
+            }
+            for src in [Src::Cursor, Src::TinyBuf, Src::Path, Src::File] {
+                if (fmt != 0 && src == Src::TinyBuf) || (small && src != Src::Cursor) {
+                    continue;
+                }
+                let kind = format!("{}/{}", ["LineLender", "ZstdLineLender", "GzipLineLender"][fmt], src.name());
+                ctx.case(&kind, &format!("error-items/{}", iname), "histories_with_error_items", |c| raw_lender_case(c, fmt, src, &raw));
             }
         }
     }
